@@ -1003,6 +1003,8 @@ _EF = CTXDIR + 'efloat.py'
 _EXP = CTXDIR + 'exponential.py'
 
 MUTANTS = [
+    Mutant('probe-accepted-one-digit-early', 'fpy2/number/gmputils.py', "        if e <= n:\n            return _round_odd(result, result.rc != 0)", "        if e <= n + 1:\n            return _round_odd(result, result.rc != 0)", 'C01.F2',
+           'seeded change C01a: MPFixedContext(-1).round(Fraction(6, 5)) = 2'),
     Mutant('rtp-negative-away', ROUND,
            'case (True, RoundingMode.RTP):\n                return False, RoundingDirection.RTZ',
            'case (True, RoundingMode.RTP):\n                return False, RoundingDirection.RAZ',
